@@ -782,6 +782,56 @@ func vfC18Unpack(res *vfResult, h *vfHarvest) {
 	}
 }
 
+// vfC18UnpackGenerated: well-formed datagrams built from legacy and tls12_cid records in every order must be
+// accepted and split exactly at the constructed boundaries (harvested traffic only contains the orders pion emits).
+func vfC18UnpackGenerated(res *vfResult) {
+	for _, cid := range []int{0, 1, 4, 8} {
+		r := vfRand("C18/unpack-generated", cid)
+		for n := 1; n <= 4; n++ {
+			for shape := 0; shape < 1<<n; shape++ {
+				for rep := 0; rep < vfPick(3, 40); rep++ {
+					var want [][]byte
+					var dg []byte
+					for i := 0; i < n; i++ {
+						body := vfRandBytes(r, 1+r.IntN(40)) // (a header-only record at the end of a datagram is refused by design)
+						var rec []byte
+						if shape>>i&1 == 1 {
+							rec = vfLegacyRecord(25, 0xfefd, uint16(1+r.IntN(2)), uint64(r.IntN(1000)), vfRandBytes(r, cid), -1, body)
+						} else {
+							rec = vfLegacyRecord(uint8(20+r.IntN(4)), 0xfefd, uint16(r.IntN(2)), uint64(r.IntN(1000)), nil, -1, body)
+						}
+						want = append(want, rec)
+						dg = append(dg, rec...)
+					}
+					res.Eval(1)
+					name := fmt.Sprintf("ContentAwareUnpackDatagram/cid%d", cid)
+					got, err := recordlayer.ContentAwareUnpackDatagram(dg, cid)
+					if err != nil {
+						res.Violate("C18:"+name+":well-formed-datagram-rejected", fmt.Sprintf("%d well-formed records (shape %0*b, 1 = tls12_cid) rejected: %v", n, n, shape, err),
+							map[string]any{"codec": name, "input": vfHex(dg)})
+
+						continue
+					}
+					ok := len(got) == len(want)
+					for i := 0; ok && i < len(want); i++ {
+						ok = bytes.Equal(got[i], want[i])
+					}
+					if !ok {
+						res.Violate("C18:"+name+":split-at-wrong-boundaries", fmt.Sprintf("%d constructed records came back as %d pieces (shape %0*b)", n, len(got), n, shape),
+							map[string]any{"codec": name, "input": vfHex(dg)})
+					}
+					res.Count("generated_datagrams_unpacked", 1)
+					if cid == 0 && shape == 0 {
+						if got, err := recordlayer.UnpackDatagram(dg); err != nil || len(got) != n {
+							res.Violate("C18:UnpackDatagram:well-formed-datagram-rejected", fmt.Sprintf("%d plain records: %v, %d pieces", n, err, len(got)), map[string]any{"input": vfHex(dg)})
+						}
+					}
+				}
+			}
+		}
+	}
+}
+
 // vfMixedCIDRemainder: the unconsumed remainder starts with a unified-header record carrying a CID
 // that differs from the first ciphertext record's CID (the documented discard rule).
 func vfMixedCIDRemainder(in, cat []byte, recs [][]byte, name string) bool {
@@ -1017,6 +1067,7 @@ func TestVF_C18(t *testing.T) {
 	}
 	res.Count("codecs", int64(len(names)))
 	vfC18Unpack(res, h)
+	vfC18UnpackGenerated(res)
 	vfC18Values(res, codecs)
 	if res.Get("codecs_without_accepted_input") > 6 {
 		res.Inconc(fmt.Sprintf("%d codecs never accepted any input", res.Get("codecs_without_accepted_input")))
